@@ -5,6 +5,7 @@ CONSTANTS
   Comps <- KindComps
   Intervals <- Iv4
   MaxActs = 7
+  Cons <- Cons1
   MaxSets = 2
 INVARIANT SameLength
 INVARIANT SameStep
